@@ -70,7 +70,10 @@ def random_history(rng, k, nops, crash, unit_scaled, pool=UNIT_SETTINGS):
         else:
             ops.append(dict(op="take", len=0))
             depth -= 1
-    return dict(h=k, maxbytes=maxbytes, syncevery=syncevery, crash=crash, unit=(UNIT if unit_scaled else 0), ops=ops)
+    # level-B detail (decoded directory content at every hook) only for histories of moderate length
+    lvlb = unit_scaled and len(ops) <= 300
+    return dict(h=k, maxbytes=maxbytes, syncevery=syncevery, crash=crash, unit=(UNIT if lvlb else 0), nolevelb=not lvlb,
+                ops=ops)
 
 
 def run_driver(ctx, histories, name, levelb=True, timeout=3000):
@@ -238,19 +241,30 @@ def validate_level_b(ctx, events, hists):
     for b in split_histories(recs):
         groups.setdefault((b[0]["maxfile"], b[0]["syncevery"]), []).append(b)
     allok, nev = True, 0
-    for gi, ((mf, se), blocks) in enumerate(sorted(groups.items())):
+    from concurrent.futures import ThreadPoolExecutor
+
+    def one(gi, mf, se, blocks):
         flat = [r for b in blocks for r in b]
-        nev += len(flat)
         f = ctx.write_ndjson("levelB_trace_%d.ndjson" % gi, flat)
         ok, matched, res = ctx.validate_traces("DiskQueueTrace", "DiskQueueTrace.cfg", f, len(flat), len(blocks),
                                                consts=dict(TraceSizes=set(sizes), MaxFile=mf, SyncEvery=se),
-                                               tag="lvlB%d" % gi, timeout=3000, heap="16g")
-        if not ok:
-            allok = False
-            nxt = flat[matched] if matched is not None and matched < len(flat) else None
-            ctx.note("model-drift DiskQueue.tla (MaxFile=%d SyncEvery=%d): hook trace matched only %s/%d events; "
-                     "next event %s; invariant=%s" % (mf, se, matched, len(flat), json.dumps(nxt)[:400], res["violated"]))
-            ctx.cov["drift"] = True
+                                               tag="lvlB%d" % gi, timeout=3000, heap="8g", own_dir="specB%d" % gi)
+        return gi, mf, se, flat, ok, matched, res
+
+    items = sorted(groups.items())
+    for gi in range(len(items)):
+        ctx.specdir("specB%d" % gi)          # created sequentially (copytree is not thread-safe on one target)
+    with ThreadPoolExecutor(max_workers=4) as pool:
+        futs = [pool.submit(one, gi, mf, se, blocks) for gi, ((mf, se), blocks) in enumerate(items)]
+        for fu in futs:
+            gi, mf, se, flat, ok, matched, res = fu.result()
+            nev += len(flat)
+            if not ok:
+                allok = False
+                nxt = flat[matched] if matched is not None and matched < len(flat) else None
+                ctx.note("model-drift DiskQueue.tla (MaxFile=%d SyncEvery=%d): hook trace matched only %s/%d events; "
+                         "next event %s; invariant=%s" % (mf, se, matched, len(flat), json.dumps(nxt)[:400], res["violated"]))
+                ctx.cov["drift"] = True
     return nh, nev, allok
 
 
